@@ -38,6 +38,7 @@ type rInput struct {
 	DelayUs     int    `json:"delay_us"` // random delay (0..DelayUs) in every source call
 	DelaySeed   uint64 `json:"delay_seed"`
 	DataSeed    uint64 `json:"data_seed"`
+	pingPong    bool   // generator hint: put the fault into the member that follows the first Seek target
 }
 
 var errInjectedRead = errors.New("verif: injected read fault")
@@ -492,6 +493,26 @@ func rGenInput(rnd *Rand) rInput {
 			in.Ops = append(in.Ops, rOp{K: "s", M: rnd.intn(nb + 2), O: rnd.pick([]int{0, 0, 1, rnd.rng(0, 600)})})
 		}
 	}
+	if !seq && in.Seekable && rnd.coin(1, 3) {
+		// seek ping-pong, then read forward: read-ahead is still heading for an older target when the reader
+		// moves on (the shape that strands Read when that older target fails)
+		in.Ops = nil
+		in.pingPong = true
+		if in.RD == 1 {
+			in.RD = rnd.pick([]int{2, 4})
+		}
+		for j := rnd.rng(1, 3); j > 0; j-- {
+			in.Ops = append(in.Ops, rOp{K: "s", M: rnd.rng(1, nb+1), O: 0})
+			if rnd.coin(1, 2) {
+				in.Ops = append(in.Ops, rOp{K: "r", N: rnd.pick([]int{1, 10, 500})})
+			}
+		}
+		in.Ops = append(in.Ops, rOp{K: "s", M: 0, O: rnd.pick([]int{0, 1 << 20})})
+		for left := total; left > 0; left -= 30000 {
+			in.Ops = append(in.Ops, rOp{K: "r", N: 30000})
+		}
+		in.Ops = append(in.Ops, rOp{K: "r", N: 10})
+	}
 	if seq {
 		// read to the end
 		for left := total; left > 0; left -= 30000 {
@@ -508,6 +529,13 @@ func rGenInput(rnd *Rand) rInput {
 func rPlaceFault(rnd *Rand, in *rInput) {
 	file := rBuildFile(in)
 	ms, _ := rMembers(file)
+	if in.pingPong && rnd.coin(2, 3) {
+		// the member read-ahead is sent to by the first Seek fails; the device is gone from then on
+		x := (in.Ops[0].M%len(ms) + 1) % len(ms)
+		in.Kind = "err"
+		in.ByteFaultAt = ms[x].off + rnd.pick([]int{0, 9, 18, ms[x].size - 1})
+		return
+	}
 	switch rnd.intn(10) {
 	case 0, 1, 2:
 		in.ReadFaultAt = rnd.pick([]int{0, 1, 2, 3, rnd.rng(0, 12), rnd.rng(0, 40)})
